@@ -144,6 +144,14 @@ func validateRange(e *Expression) (err error) {
 		return errors.New("RANGE validation: range boundary must have a maximum")
 	}
 
+	if !isLiteralExpr(boundary.Min) {
+		return fmt.Errorf("RANGE validation: range minimum must be a literal, not %s", reflect.TypeOf(boundary.Min))
+	}
+
+	if !isLiteralExpr(boundary.Max) {
+		return fmt.Errorf("RANGE validation: range maximum must be a literal, not %s", reflect.TypeOf(boundary.Max))
+	}
+
 	return nil
 }
 
